@@ -89,12 +89,16 @@ def run(ctx):
                     if isinstance(t, (ast.Attribute, ast.Subscript)) and any(isinstance(x, ast.Name) and x.id == 'repl' for x in ast.walk(t.value)):
                         ctx.bad('R18.2', 'match', fi.qualname, n, 'store into the shared template `repl`', n.lineno)
     cfg = CFG(sub.node)
-    copy_nodes = [n for n in cfg.nodes if n.kind == 'stmt' and isinstance(n.ast, ast.Assign) and norm(n.ast.targets[0]) == 'repl_'
-                  and norm(n.ast.value) == 'repl.copy()']
-    ctx.check('R18.2', len(copy_nodes) == 1, 'match', 'subn', 'repl_ = repl.copy()', 'exactly one per-iteration copy of the template expected', sub.lineno)
+    # roles, read off the code: COPY = the local bound from `repl.copy()` (today `repl_`); MATCHED = the receiver of `.replace(COPY, ...)`;
+    # COUNTER = the third element of the returned tuple (today `total_count`)
+    cands = [n for n in cfg.nodes if n.kind == 'stmt' and isinstance(n.ast, ast.Assign) and len(n.ast.targets) == 1 and isinstance(n.ast.targets[0], ast.Name)
+             and norm(n.ast.value) == 'repl.copy()']
+    COPY = cands[0].ast.targets[0].id if cands else 'repl_'
+    copy_nodes = [n for n in cands if n.ast.targets[0].id == COPY]
+    ctx.check('R18.2', len(cands) == 1, 'match', 'subn', 'repl_ = repl.copy()', 'exactly one per-iteration copy of the template expected', sub.lineno)
     if copy_nodes:
         cp = copy_nodes[0]
-        use_nodes = [n for n in cfg.nodes if n.id != cp.id and any(isinstance(x, ast.Name) and x.id == 'repl_' and isinstance(x.ctx, ast.Load)
+        use_nodes = [n for n in cfg.nodes if n.id != cp.id and any(isinstance(x, ast.Name) and x.id == COPY and isinstance(x.ctx, ast.Load)
                                                                      for x in subnodes(cfg, n))]
         # every use must be unreachable from entry when the copy node is removed (dominance), also from the loop back edge
         reach = cfg.reachable(cfg.entry, lambda n, lab, s: n.id != cp.id)
@@ -102,7 +106,7 @@ def run(ctx):
             ctx.check('R18.2', u.id not in reach, 'match', 'subn', f'use of repl_: {norm(u.ast, 80)}',
                       '`repl_` can be used on a path that did not copy the template in this call', u.lineno)
         # and the copy is inside the innermost loop that contains the final replace: a second iteration must re-copy
-        rep = [n for n in cfg.nodes if any(isinstance(x, ast.Call) and call_name(x) == 'replace' and x.args and norm(x.args[0]) == 'repl_'
+        rep = [n for n in cfg.nodes if any(isinstance(x, ast.Call) and call_name(x) == 'replace' and x.args and norm(x.args[0]) == COPY
                                            for x in subnodes(cfg, n))]
         for r in rep:
             # from the replace node, following loop edges back, the next use of repl_ must pass the copy node again
@@ -127,16 +131,28 @@ def run(ctx):
         cp = copy_nodes[0]
         marks = {n.id for n in cfg.nodes for x in subnodes(cfg, n)
                  if isinstance(x, ast.Call) and isinstance(x.func, ast.Attribute) and x.func.attr in ('update', 'add') and norm(x.func.value) in guards
-                 and any(isinstance(y, ast.Name) and y.id == 'repl_' for a in x.args for y in ast.walk(a))}
+                 and any(isinstance(y, ast.Name) and y.id == COPY for a in x.args for y in ast.walk(a))}
+        # worker form: `_mark(dirty, repl_)` - the guard set and the copy handed to a function of the module that adds to its parameter
+        for n in cfg.nodes:
+            for x in subnodes(cfg, n):
+                if isinstance(x, ast.Call) and isinstance(x.func, ast.Name) and \
+                        any(isinstance(a, ast.Name) and a.id in guards for a in x.args) and \
+                        any(isinstance(y, ast.Name) and y.id == COPY for a in x.args for y in ast.walk(a)):
+                    for g in ctx.repo.find_funcs('match', x.func.id):
+                        gp = g.params()
+                        sp = [gp[i] for i, a in enumerate(x.args) if i < len(gp) and isinstance(a, ast.Name) and a.id in guards]
+                        if any(isinstance(c, ast.Call) and isinstance(c.func, ast.Attribute) and c.func.attr in ('update', 'add') and norm(c.func.value) in sp
+                               for c in ast.walk(g.node)):
+                            marks.add(n.id)
         # loop form: `for a in walk(repl_.a): dirty.add(a)` marks at the loop header (the walk yields at least the root of the copy)
         for n in cfg.nodes:
-            if n.kind == 'iter' and any(isinstance(y, ast.Name) and y.id == 'repl_' for y in ast.walk(n.ast.iter)) and \
+            if n.kind == 'iter' and any(isinstance(y, ast.Name) and y.id == COPY for y in ast.walk(n.ast.iter)) and \
                     any(isinstance(x, ast.Call) and isinstance(x.func, ast.Attribute) and x.func.attr in ('update', 'add') and norm(x.func.value) in guards
                         for b in n.ast.body for x in ast.walk(b)):
                 marks.add(n.id)
         if not guards or not marks:
             raise AnalysisError('subn(): no guard set that receives the nodes of the template copy found (anchor vanished)')
-        rep7 = [n for n in cfg.nodes if any(isinstance(x, ast.Call) and call_name(x) == 'replace' and x.args and norm(x.args[0]) == 'repl_'
+        rep7 = [n for n in cfg.nodes if any(isinstance(x, ast.Call) and call_name(x) == 'replace' and x.args and norm(x.args[0]) == COPY
                                             for x in subnodes(cfg, n))]
         for r in rep7:
             unmarked = cfg.reachable(cp.id, lambda n, lab, s: lab != 'exc' and n.id not in marks)
@@ -148,10 +164,13 @@ def run(ctx):
     # ---- R18.3 -------------------------------------------------------------------------------------------------------
     ctx.rule('R18.3', 'exactly one `total_count += 1` per `matched.replace(repl_, ...)`: the increment is dominated by the replace '
                       'and post-dominates it on normal paths; both occur once', 3)
-    incs = [n for n in cfg.nodes if n.kind == 'stmt' and isinstance(n.ast, ast.AugAssign) and norm(n.ast.target) == 'total_count']
-    reps = [n for n in cfg.nodes if any(isinstance(x, ast.Call) and call_name(x) == 'replace' and norm(x.func.value) == 'matched'
+    ret = [n for n in walk_no_nested(sub.node) if isinstance(n, ast.Return)]
+    COUNTER = norm(ret[0].value.elts[2]) if len(ret) == 1 and isinstance(ret[0].value, ast.Tuple) and len(ret[0].value.elts) == 3 and \
+        isinstance(ret[0].value.elts[2], ast.Name) else 'total_count'
+    incs = [n for n in cfg.nodes if n.kind == 'stmt' and isinstance(n.ast, ast.AugAssign) and norm(n.ast.target) == COUNTER]
+    reps = [n for n in cfg.nodes if any(isinstance(x, ast.Call) and call_name(x) == 'replace' and x.args and norm(x.args[0]) == COPY
                                         for x in subnodes(cfg, n))]
-    ctx.check('R18.3', len(incs) == 1 and len(reps) == 1 and norm(incs[0].ast) == 'total_count += 1', 'match', 'subn',
+    ctx.check('R18.3', len(incs) == 1 and len(reps) == 1 and norm(incs[0].ast) == COUNTER + ' += 1', 'match', 'subn',
               f'{len(reps)} matched.replace, {len(incs)} total_count increments',
               'the substitution driver must have exactly one replace site and one `total_count += 1`', sub.lineno)
     if len(incs) == 1 and len(reps) == 1:
@@ -167,7 +186,7 @@ def run(ctx):
                   'a substitution can be performed without being counted (a path from the replace reaches the next iteration '
                   'or the return without the increment)', rep.lineno)
     ret = [n for n in walk_no_nested(sub.node) if isinstance(n, ast.Return)]
-    ctx.check('R18.3', len(ret) == 1 and isinstance(ret[0].value, ast.Tuple) and len(ret[0].value.elts) == 3 and norm(ret[0].value.elts[0]) == 'self' and norm(ret[0].value.elts[2]) == 'total_count',
+    ctx.check('R18.3', len(ret) == 1 and isinstance(ret[0].value, ast.Tuple) and len(ret[0].value.elts) == 3 and norm(ret[0].value.elts[0]) == 'self' and norm(ret[0].value.elts[2]) == COUNTER,
               'match', 'subn', norm(ret[0].value) if ret else '<no return>', 'subn must return (self, unique count, total_count)', sub.lineno)
 
 
@@ -190,10 +209,10 @@ def check_budget(ctx):
         saved = {}
         for n in ast.walk(fn):
             if isinstance(n, ast.Assign) and len(n.targets) == 1 and isinstance(n.targets[0], ast.Name) and isinstance(n.value, ast.Name) and \
-                    n.targets[0].id == n.value.id + '_start':
-                saved[n.value.id] = n.targets[0].id
+                    n.targets[0].id != n.value.id and n.value.id in fi.params():
+                saved[n.value.id] = n.targets[0].id      # `<saved> = <budget parameter>` (today `loop_start = loop`, `count_start = count`)
         if not saved:
-            raise AnalysisError('subn: no saved budget (`<v>_start = <v>`) found')
+            raise AnalysisError('subn: no saved budget (`<saved> = <budget parameter>`) found')
         for v, vs in list(saved.items()):
             n_asg = sum(1 for n in ast.walk(fn) if isinstance(n, ast.Name) and isinstance(n.ctx, ast.Store) and n.id == vs)
             if n_asg != 1:
